@@ -45,6 +45,9 @@ type sharedPacketConn struct {
 	closeOnce sync.Once
 
 	readDeadline atomic.Pointer[time.Time]
+	// writeDeadlineArmed records that this wrapper armed a write deadline on the
+	// shared underlying connection.
+	writeDeadlineArmed atomic.Bool
 }
 
 // newSharedPacketConn increments the shared refcount and returns a wrapper.
@@ -131,6 +134,8 @@ func (s *sharedPacketConn) SetWriteDeadline(t time.Time) error {
 		return io.ErrClosedPipe
 	}
 
+	s.writeDeadlineArmed.Store(!t.IsZero())
+
 	return s.underlying.SetWriteDeadline(t)
 }
 
@@ -159,6 +164,11 @@ func (s *sharedPacketConn) Close() error {
 		s.cancel()
 		if s.refs.Add(-1) <= 0 {
 			err = s.underlying.Close()
+		} else if s.writeDeadlineArmed.Swap(false) {
+			// The write deadline lives on the connection the siblings keep using: a deadline
+			// this wrapper armed (abortIO arms one to interrupt its own writes) must not
+			// outlive it.
+			err = s.underlying.SetWriteDeadline(time.Time{})
 		}
 	})
 	if !fired {
